@@ -95,7 +95,18 @@ def Schema.stepToJ (S : Schema) : Step → J
   | .attr p n v => .obj [("stepType", .str "attr"), ("pos", .num p), ("attr", .str n), ("value", .raw v)]
   | .docAttr n v => .obj [("stepType", .str "docAttr"), ("attr", .str n), ("value", .raw v)]
 
-/-! ### from_json -/
+/-! ### from_json
+
+  The decoders are modelled for *arbitrary* JSON data, following the Python code branch by branch:
+  `.error .valueError` is a `ValueError` raised by the library (or by `json.loads`), `.error .internal`
+  is the `KeyError` / `TypeError` / `AttributeError` the code dies with on data of the wrong shape
+  (a missing key read with `json_data[k]`, `.get` on something that is not a dict, an unhashable
+  value used as a dictionary key).  Outside the model (documented at each place):
+  * a JSON *string* where a node / fragment / step is expected is handed to `json.loads` by the code;
+    the model answers `valueError`, which is right for every string that is not itself JSON text;
+  * a non-string `type` of a node is turned into its `str()` by the code and looked up; the model
+    answers `valueError` (no node type is named like the `str()` of a non-string);
+  * negative integers in position fields are accepted by the code; positions are naturals here. -/
 
 def attrsOfJ (j : Option J) : Attrs :=
   match j with
@@ -104,20 +115,40 @@ def attrsOfJ (j : Option J) : Attrs :=
       | _ => none)
   | _ => []
 
+/-- `compute_attrs(decls, json_data.get("attrs"))`: a missing or falsy value (`null`, `{}`, `[]`, `0`,
+    `""`, `false`) means "nothing given"; a truthy value that is not a dict has no `.get`
+    (AttributeError) — reached as soon as one attribute is declared -/
+def computeAttrsJ (decls : List AttrDecl) (v : Option J) : Res Attrs :=
+  match v with
+  | none => computeAttrs decls []
+  | some x =>
+    if !x.truthy then computeAttrs decls [] else
+    match x with
+    | .obj kv => computeAttrs decls (attrsOfJ (some (.obj kv)))
+    | _ => if decls.isEmpty then .ok [] else .error .internal
+
 def Schema.findMark (S : Schema) (name : String) : Option MarkTypeId :=
   (List.range S.marks.size).find? (fun i => (S.markType i).name == name)
 
 def Schema.findNode (S : Schema) (name : String) : Option TypeId :=
   (List.range S.nodes.size).find? (fun i => (S.nodeType i).name == name)
 
-/-- `Mark.from_json` -/
+/-- `Mark.from_json`: falsy input → ValueError; `json_data["type"]` on a non-dict → TypeError, on a
+    dict without the key → KeyError; `schema.marks.get(name)` with a list / dict as name → TypeError
+    (unhashable), with any other non-name → no such mark (ValueError) -/
 def Schema.markOfJ (S : Schema) (j : J) : Res Mark :=
   if !j.truthy then .error .valueError else
-  match j.get "type" with
-  | some (.str name) =>
-    match S.findMark name with
-    | none => .error .valueError
-    | some t => (computeAttrs (S.markType t).attrs (attrsOfJ (j.get "attrs"))).map (fun a => ⟨t, a⟩)
+  match j with
+  | .obj kv =>
+    match (J.obj kv).get "type" with
+    | none => .error .internal
+    | some (.str name) =>
+      match S.findMark name with
+      | none => .error .valueError
+      | some t => (computeAttrsJ (S.markType t).attrs ((J.obj kv).get "attrs")).map (fun a => ⟨t, a⟩)
+    | some (.arr _) => .error .internal
+    | some (.obj _) => .error .internal
+    | some _ => .error .valueError
   | _ => .error .internal
 
 def Schema.marksOfJ (S : Schema) (j : Option J) : Res Marks :=
@@ -129,9 +160,25 @@ def Schema.marksOfJ (S : Schema) (j : Option J) : Res Marks :=
     | .arr l => (l.mapM S.markOfJ).map setFrom
     | _ => .error .valueError
 
+def asciiUnits (s : String) : List Nat := s.toList.map Char.toNat
+
+/-- the UTF-16 units of Python's `str(value)` as `Node.from_json` applies it to `json_data["text"]`:
+    exact for strings, `None`, booleans and integers; for lists, dicts and floats only "non-empty"
+    is modelled (the placeholder `?`) -/
+def pyStrUnits : J → List Nat
+  | .text u => u
+  | .str s => asciiUnits s
+  | .null => asciiUnits "None"
+  | .bool true => asciiUnits "True"
+  | .bool false => asciiUnits "False"
+  | .num n => asciiUnits (toString n)
+  | _ => asciiUnits "?"
+
 mutual
 /-- `Node.from_json`; `fuel` bounds the nesting depth of the JSON (the lookups by key hide the
-    structural descent from the termination checker) -/
+    structural descent from the termination checker).  Order of the code: falsy → ValueError;
+    marks; `json_data["type"]` (KeyError); text nodes: `json_data["text"]` (KeyError), `str()` of it,
+    empty → ValueError; other nodes: content (`Fragment.from_json`), then the type name, then attrs. -/
 def Schema.nodeOfJ (S : Schema) : Nat → J → Res Node
   | 0, _ => .error .internal
   | fuel + 1, .obj kv =>
@@ -141,28 +188,35 @@ def Schema.nodeOfJ (S : Schema) : Nat → J → Res Node
     | .error e => .error e
     | .ok marks =>
       match j.get "type" with
+      | none => .error .internal
       | some (.str "text") =>
         match j.get "text" with
-        | some (.text u) => if u.isEmpty then .error .valueError else .ok (.text u marks)
-        | _ => .error .internal
-      | some (.str name) =>
-        match S.findNode name with
-        | none => .error .valueError
-        | some t =>
-          let content : Res (List Node) :=
-            match j.get "content" with
-            | some (.arr l) => S.kidsOfJ fuel l
-            | some .null => .ok []
-            | none => .ok []
+        | none => .error .internal
+        | some v => if (pyStrUnits v).isEmpty then .error .valueError else .ok (.text (pyStrUnits v) marks)
+      | some ty =>
+        let content : Res (List Node) :=
+          match j.get "content" with
+          | none => .ok []
+          | some c =>
+            if !c.truthy then .ok [] else
+            match c with
+            | .arr l => S.kidsOfJ fuel l
             | _ => .error .valueError
-          match content with
-          | .error e => .error e
-          | .ok kids =>
-            match computeAttrs (S.nodeType t).attrs (attrsOfJ (j.get "attrs")) with
-            | .error e => .error e
-            | .ok a => if (S.nodeType t).isLeaf then .ok (.leaf t a marks) else .ok (.elem t a marks kids)
-      | _ => .error .internal
-  | _ + 1, _ => .error .valueError
+        match content with
+        | .error e => .error e
+        | .ok kids =>
+          match ty with
+          | .str name =>
+            match S.findNode name with
+            | none => .error .valueError
+            | some t =>
+              match computeAttrsJ (S.nodeType t).attrs (j.get "attrs") with
+              | .error e => .error e
+              | .ok a => if (S.nodeType t).isLeaf then .ok (.leaf t a marks) else .ok (.elem t a marks kids)
+          | _ => .error .valueError
+  | _ + 1, .str _ => .error .valueError
+  | _ + 1, .text _ => .error .valueError
+  | _ + 1, j => if !j.truthy then .error .valueError else .error .internal
 def Schema.kidsOfJ (S : Schema) : Nat → List J → Res (List Node)
   | _, [] => .ok []
   | fuel, j :: js =>
@@ -174,7 +228,8 @@ def Schema.kidsOfJ (S : Schema) : Nat → List J → Res (List Node)
       | .ok ns => .ok (n :: ns)
 end
 
-/-- `Fragment.from_json` -/
+/-- `Fragment.from_json`: falsy → empty; a list → its nodes; anything else → ValueError (a string
+    goes through `json.loads` first) -/
 def Schema.fragOfJ (S : Schema) (fuel : Nat) (j : Option J) : Res (List Node) :=
   match j with
   | none => .ok []
@@ -184,30 +239,29 @@ def Schema.fragOfJ (S : Schema) (fuel : Nat) (j : Option J) : Res (List Node) :=
     | .arr l => S.kidsOfJ fuel l
     | _ => .error .valueError
 
-def natOfJ (j : Option J) : Option Nat :=
+/-- `json_data.get(k, 0) or 0` followed by `isinstance(…, int)` (`True` is an `int`) -/
+def openOfJ (j : Option J) : Option Nat :=
   match j with
-  | some (.num n) => if n ≥ 0 then some n.toNat else none
-  | _ => none
+  | none => some 0
+  | some v =>
+    if !v.truthy then some 0 else
+    match v with
+    | .num n => some n.toNat
+    | .bool _ => some 1
+    | _ => none
 
-/-- `Slice.from_json` -/
+/-- `Slice.from_json`: falsy → empty slice; `.get` on a truthy non-dict → AttributeError -/
 def Schema.sliceOfJ (S : Schema) (fuel : Nat) (j : Option J) : Res Slice :=
   match j with
   | none => .ok Slice.empty
   | some v =>
     if !v.truthy then .ok Slice.empty else
-    let os := match v.get "openStart" with
-      | some (.num n) => some n.toNat
-      | none => some 0
-      | some .null => some 0
-      | _ => none
-    let oe := match v.get "openEnd" with
-      | some (.num n) => some n.toNat
-      | none => some 0
-      | some .null => some 0
-      | _ => none
-    match os, oe with
-    | some a, some b => (S.fragOfJ fuel (v.get "content")).map (fun c => ⟨c, a, b⟩)
-    | _, _ => .error .valueError
+    match v with
+    | .obj kv =>
+      match openOfJ ((J.obj kv).get "openStart"), openOfJ ((J.obj kv).get "openEnd") with
+      | some a, some b => (S.fragOfJ fuel ((J.obj kv).get "content")).map (fun c => ⟨c, a, b⟩)
+      | _, _ => .error .valueError
+    | _ => .error .internal
 
 /-- the step registry: published names of the eight built-in step types -/
 def stepIds : List String :=
@@ -218,46 +272,74 @@ def boolOfJ (j : Option J) : Bool :=
   | some v => v.truthy
   | none => false
 
-/-- `Step.from_json` (dispatch on `stepType` through the registry) -/
+/-- a position field read as `json_data[k]` and tested with `isinstance(…, int)`:
+    missing → KeyError, not an int → ValueError (`True`/`False` are ints) -/
+def intField (j : J) (k : String) (cont : Nat → Res α) : Res α :=
+  match j.get k with
+  | none => .error .internal
+  | some (.num n) => if n ≥ 0 then cont n.toNat else .error .valueError
+  | some (.bool b) => cont (if b then 1 else 0)
+  | some _ => .error .valueError
+
+/-- `schema.mark_from_json(json_data["mark"])` -/
+def Schema.markField (S : Schema) (j : J) (cont : Mark → Step) : Res Step :=
+  match j.get "mark" with
+  | none => .error .internal
+  | some mj => (S.markOfJ mj).map cont
+
+/-- `Step.from_json` (dispatch on `stepType` through the registry).  A string is passed through
+    `json.loads` (here: not JSON text → ValueError); falsy data or a falsy `stepType` → ValueError;
+    `.get` on a truthy non-dict → AttributeError; a list / dict as `stepType` is unhashable
+    (TypeError); the fields of each step kind are read in the order of the code. -/
 def Schema.stepOfJ (S : Schema) (fuel : Nat) (j : J) : Res Step :=
-  match j.get "stepType" with
-  | some (.str ty) =>
-    if !stepIds.contains ty then .error .valueError else
-    match ty with
-    | "replace" =>
-      match natOfJ (j.get "from"), natOfJ (j.get "to") with
-      | some f, some t => (S.sliceOfJ fuel (j.get "slice")).map (fun sl => .replace f t sl (boolOfJ (j.get "structure")))
-      | _, _ => .error .valueError
-    | "replaceAround" =>
-      match natOfJ (j.get "from"), natOfJ (j.get "to"), natOfJ (j.get "gapFrom"), natOfJ (j.get "gapTo"), natOfJ (j.get "insert") with
-      | some f, some t, some gf, some gt, some ins =>
-        (S.sliceOfJ fuel (j.get "slice")).map (fun sl => .replaceAround f t gf gt sl ins (boolOfJ (j.get "structure")))
-      | _, _, _, _, _ => .error .valueError
-    | "addMark" =>
-      match natOfJ (j.get "from"), natOfJ (j.get "to"), j.get "mark" with
-      | some f, some t, some mj => (S.markOfJ mj).map (fun m => .addMark f t m)
-      | _, _, _ => .error .valueError
-    | "removeMark" =>
-      match natOfJ (j.get "from"), natOfJ (j.get "to"), j.get "mark" with
-      | some f, some t, some mj => (S.markOfJ mj).map (fun m => .removeMark f t m)
-      | _, _, _ => .error .valueError
-    | "addNodeMark" =>
-      match natOfJ (j.get "pos"), j.get "mark" with
-      | some p, some mj => (S.markOfJ mj).map (fun m => .addNodeMark p m)
-      | _, _ => .error .valueError
-    | "removeNodeMark" =>
-      match natOfJ (j.get "pos"), j.get "mark" with
-      | some p, some mj => (S.markOfJ mj).map (fun m => .removeNodeMark p m)
-      | _, _ => .error .valueError
-    | "attr" =>
-      match natOfJ (j.get "pos"), j.get "attr", j.get "value" with
-      | some p, some (.str n), some (.raw v) => .ok (.attr p n v)
-      | _, _, _ => .error .valueError
-    | "docAttr" =>
-      match j.get "attr", j.get "value" with
-      | some (.str n), some (.raw v) => .ok (.docAttr n v)
-      | _, _ => .error .valueError
-    | _ => .error .valueError
-  | _ => .error .valueError
+  match j with
+  | .str _ => .error .valueError
+  | .text _ => .error .valueError
+  | .obj kv =>
+    let j := J.obj kv
+    if kv.isEmpty then .error .valueError else
+    match j.get "stepType" with
+    | none => .error .valueError
+    | some (.str ty) =>
+      if !stepIds.contains ty then .error .valueError else
+      match ty with
+      | "replace" =>
+        intField j "from" fun f => intField j "to" fun t =>
+          (S.sliceOfJ fuel (j.get "slice")).map (fun sl => .replace f t sl (boolOfJ (j.get "structure")))
+      | "replaceAround" =>
+        intField j "from" fun f => intField j "to" fun t => intField j "gapFrom" fun gf =>
+          intField j "gapTo" fun gt => intField j "insert" fun ins =>
+            (S.sliceOfJ fuel (j.get "slice")).map
+              (fun sl => .replaceAround f t gf gt sl ins (boolOfJ (j.get "structure")))
+      | "addMark" =>
+        intField j "from" fun f => intField j "to" fun t => S.markField j (fun m => .addMark f t m)
+      | "removeMark" =>
+        intField j "from" fun f => intField j "to" fun t => S.markField j (fun m => .removeMark f t m)
+      | "addNodeMark" => intField j "pos" fun p => S.markField j (fun m => .addNodeMark p m)
+      | "removeNodeMark" => intField j "pos" fun p => S.markField j (fun m => .removeNodeMark p m)
+      | "attr" =>
+        intField j "pos" fun p =>
+          match j.get "attr" with
+          | none => .error .internal
+          | some (.str n) =>
+            match j.get "value" with
+            | none => .error .internal
+            | some (.raw v) => .ok (.attr p n v)
+            | some _ => .error .valueError     -- not produced by the wire decoding (values are raw)
+          | some _ => .error .valueError
+      | "docAttr" =>
+        match j.get "attr" with
+        | none => .error .internal
+        | some (.str n) =>
+          match j.get "value" with
+          | none => .error .internal
+          | some (.raw v) => .ok (.docAttr n v)
+          | some _ => .error .valueError
+        | some _ => .error .valueError
+      | _ => .error .valueError
+    | some (.arr l) => if l.isEmpty then .error .valueError else .error .internal
+    | some (.obj o) => if o.isEmpty then .error .valueError else .error .internal
+    | some _ => .error .valueError
+  | j => if !j.truthy then .error .valueError else .error .internal
 
 end PM
